@@ -2629,26 +2629,33 @@ $packages["math"] = (function() {
 	return $pkg;
 })();
 $packages["replay"] = (function() {
-	var $pkg = {}, $init, math, NondetInt8, quo_int8_vv, main;
+	var $pkg = {}, $init, math, NondetInt, NondetString, main;
 	math = $packages["math"];
 	$pkg.$finishSetup = function() {
-		NondetInt8 = function NondetInt8$1(id) {
+		NondetInt = function NondetInt$1(id) {
 			var _1, id;
 			_1 = id;
-			if (_1 === (0)) {
-				return -128;
-			} else if (_1 === (1)) {
+			if (_1 === (1)) {
 				return -1;
 			}
 			return 0;
 		};
-		$pkg.NondetInt8 = NondetInt8;
-		quo_int8_vv = function quo_int8_vv$1(x, y) {
-			var _q, x, y;
-			return (_q = x / y, (_q === _q && _q !== 1/0 && _q !== -1/0) ? _q >> 0 : $throwRuntimeError("integer divide by zero"));
+		$pkg.NondetInt = NondetInt;
+		NondetString = function NondetString$1(id, maxLen) {
+			var _1, id, maxLen;
+			_1 = id;
+			if (_1 === (0)) {
+				return "\x00\x00\x00\x00";
+			}
+			return "";
 		};
+		$pkg.NondetString = NondetString;
 		main = function main$1() {
-			console.log("quo_int8_vv", quo_int8_vv(NondetInt8(0), NondetInt8(1)));
+			var i, s;
+			s = NondetString(0, 4);
+			i = NondetInt(1);
+			console.log("l", s.length);
+			console.log("b", s.charCodeAt(i));
 		};
 	};
 	$init = function() {
